@@ -265,6 +265,24 @@ def _fnf_handled(cg, repo, f, target, seen):
     return (ok_all and found), f.fq
 
 
+# functions whose mechanical mutants are swept in the thorough tier (coverage evidence, see sa/mutate.py)
+MUTATION_SCOPE = ['db/file_cache:FileCache._load_file',
+                  'db/file_cache:FileCache._write_file',
+                  'db/file_cache:FileCache.update_file_futures_and_memory',
+                  'db/file_cache:FileCache.update_file',
+                  'db/file_cache:FileCache._unload_file',
+                  'db/file_cache:FileCache.recover_memory',
+                  'db/file_cache:FileCache.get_file',
+                  'db/sys_fn_kvs:KeyValueStorage.get',
+                  'db/sys_fn_kvs:KeyValueStorage.set',
+                  'db/sys_fn_kvs:TableStorage.get',
+                  'db/sys_fn_kvs:TableStorage.set',
+                  'db/df_cache:PandasDataFrameCache.get_dataframe',
+                  'db/df_cache:PandasDataFrameCache.process_contents',
+                  'db/helpers:key_to_file_path',
+                  'db/helpers:serialize_obj',
+                  'db/helpers:deserialize_obj']
+
 SEEDS = [
     Seed("kvs-get-raises", "fault", KVS, "        try:\n            return deserialize_obj(self.cache.get_file(key_to_file_path(x)))\n        except FileNotFoundError:\n            return KLONG_UNDEFINED",
          "        return deserialize_obj(self.cache.get_file(key_to_file_path(x)))", rule="C16-R1"),
